@@ -220,7 +220,10 @@ def termination_rule(prog, chk, pid, an: ExcAnalysis):
         body = [e for e in res.events if any(f[0] == "loop" and f[1] == lid for f in e.ctx)]
         where = "%s:%d" % (lr.fn.file, node.lineno)
         # progress sources inside the iteration
-        rd_exact = [e for e in body if e.kind == "call" and e.d["callee"].qualname.endswith("BytesReader.read")]
+        # (the length-checked read: BytesReader.read, wherever in BytesReader's class hierarchy it is defined -- a mixin the class was split into counts)
+        br_ = prog.classes.get("bec2format.bytes_reader.BytesReader")
+        br_read = br_.lookup("read")[1] if br_ is not None and br_.lookup("read") is not None else None
+        rd_exact = [e for e in body if e.kind == "call" and (e.d["callee"].qualname.endswith("BytesReader.read") or (br_read is not None and e.d["callee"] is br_read))]
         rd_raw = [e for e in body if e.kind == "mcall" and e.d["name"] in ("read", "readline")]
         cond = lr.cond
         ok, why = False, ""
@@ -336,16 +339,26 @@ def _pinned_home(prog, lib, fi) -> str:
             continue
         if not _is_new_function(fi):
             return fi.qualname
-        callers = []
-        for q, f in lib.items():
-            if f is fi:
-                continue
-            for c in ast.walk(f.node):
-                if isinstance(c, ast.Call):
-                    nm = c.func.attr if isinstance(c.func, ast.Attribute) else getattr(c.func, "id", None)
-                    if nm == fi.name:
-                        callers.append(f)
-                        break
+        def users_of(name):
+            out = []
+            for q, f in lib.items():
+                if f is fi or f.parent is not None:
+                    continue
+                if any((isinstance(c, ast.Attribute) and c.attr == name) or (isinstance(c, ast.Name) and c.id == name) for c in ast.walk(f.node)):
+                    out.append(f)
+            return out
+
+        callers = users_of(fi.name)
+        if not callers:
+            # handed on through a dispatch table at module or class level: the users of the table
+            holders = [fi.module.tree.body] + [c.body for c in ast.walk(fi.module.tree) if isinstance(c, ast.ClassDef)]
+            for body in holders:
+                for st_ in body:
+                    if isinstance(st_, (ast.Assign, ast.AnnAssign)) and getattr(st_, "value", None) is not None and any((isinstance(c, ast.Attribute) and c.attr == fi.name) or (isinstance(c, ast.Name) and c.id == fi.name) for c in ast.walk(st_.value)):
+                        for t_ in (st_.targets if isinstance(st_, ast.Assign) else [st_.target]):
+                            if isinstance(t_, ast.Name):
+                                callers += users_of(t_.id)
+        callers = [f for i_, f in enumerate(callers) if f not in callers[:i_]]
         if len(callers) != 1:
             return fi.qualname
         fi = callers[0]
